@@ -51,4 +51,5 @@ f851927 C01
 d2451f6 C18
 a46d743 C13 C14
 a1887f0 C02
+58715e3 C01
 LIST
